@@ -248,7 +248,12 @@ func (e *Env) eval(x Expr) (cval, error) {
 		}
 		switch u := under(b.typ).(type) {
 		case *types.Map:
-			return cval{t: c.mapGet(e.st, b.t, u, i.t), typ: u.Elem()}, nil
+			// in contracts m[k] is the stored value and is meaningful only under
+			// `k in m` (no zero-value default: keeps quantified terms small)
+			ks, vs := c.R.SortOf(u.Key()), c.R.SortOf(u.Elem())
+			c.R.MDomHeap(ks)
+			vh := c.R.MValHeap(ks, vs)
+			return cval{t: Select(Select(c.getHeap(e.st, vh), b.t), i.t), typ: u.Elem()}, nil
 		case *types.Slice:
 			return cval{t: c.load(e.st, Elem(b.t, i.t), u.Elem()), typ: u.Elem()}, nil
 		case *types.Array:
